@@ -44,6 +44,19 @@ RULE = ('programs of 3..12 ops over {define class (module class or plain mixin; 
         'plain mixins before or after the module class in the bases), configuration of a property per instance, '
         'setProperty(valid / invalid value) on one instance at run time; a fixed family of 11 such programs (one / two / three '
         'levels, mixins, redefinition, instances of every class before and after) runs first; '
+        'FRESH-INTERPRETER families (implementation + oracle only, each case runs in `python -m harness.c09_fresh`, every '
+        'program and every reference in a child forked from an interpreter that has only imported frappy): (arr) 3..7 steps '
+        'over {define a Readable subclass with ArrayOf parameters whose element properties unit/min/max/fmtstr/maxchars are '
+        'given through Parameter(...), out of 6 bodies so that literally the same body is defined again later; subclass '
+        'overriding one element property; instance with configured element properties / maxlen}: descriptions + enforced '
+        'limits (probe values) of every class and instance after every step, compared with the earlier entity made from the '
+        'same source, with the state before the step, with the reference made in a fresh interpreter from the own chain '
+        'only, and with the properties explicitly given; (cfg) a configuration of 1..3 modules built once from '
+        'frappy.config.Mod / Param objects (a Param object may be used by several modules), the node created 1..3 times from '
+        'the SAME srv.module_cfg through SecNode.create_modules (= Server.restart()) or directly through the module class: '
+        'the configuration must be unchanged, every re-created module equal to the first one, to its twin with the same '
+        'configuration, to the one created alone from a deep copy in a fresh interpreter, and must have the configured '
+        'value / default / constant; 19 + 10 fixed programs (the scenarios of seeded C09-8 / C09-7 first) + 12 + 12 random; '
         'seeded random plus exhaustive small hierarchies in thorough; after every op the description of every class '
         'and instance is recorded; non-trivial = at least two module classes and one further op; distinct = distinct '
         'op lists')
@@ -73,6 +86,10 @@ ASSUMPTIONS = [
     'extname / export and the min <= max rule of checkProperties are not modelled (the oracle compares value and default of '
     'EVERY Property of every class and the effective value of every property of every instance); the instance reads the '
     'propertyDict of the per class wrapper Module.__new__ creates, the model the one of the class (same objects)',
+    'process wide state of the datatype classes (class level dicts such as propertyDict of ArrayOf) and the configuration '
+    'objects themselves (srv.module_cfg, Param dicts) are NOT in the Gallina model: they are decided by the direct oracle on '
+    'the fresh-interpreter families (the Coq case of such a program is the empty program) and by the source obligations '
+    'arrayof_getproperties_builds_new_dict, add_accessible_only_reads_cfg, get_module_instance_copies_options',
     'whether Module.__init__ accepts a configuration is decided by the parameter component and handed to the command '
     'component with the op (generated commands always have a description; check_case verifies that an accepted instance '
     'is acceptable for the command component)',
@@ -741,6 +758,8 @@ def _exec(case, keep_classes=None, keep_inst=None, final_only=False):
 
 
 def run_case(case):
+    if 'fresh' in case:
+        return fresh_run_case(case)
     w, infos, deltas, muts, final, _ = _exec(case)
     case = {'ops': case['ops'][:len(infos)]}     # truncated where a class definition raised
     obs = {'ops': infos, 'deltas': deltas, 'own_mut': muts, 'ids': w.idvector(), 'xids': w.xidvector(),
@@ -834,6 +853,8 @@ def changed_names(a, b):
 
 # ------------------------------------------------------------------ direct oracle (the property on the observations)
 def oracle(case, obs):
+    if 'fresh' in case:
+        return fresh_oracle(case, obs)
     fails = []
     state = {}
     n_cls = n_inst = 0
@@ -1060,11 +1081,16 @@ def f_own_dt(case, obs, failure):
     return f_own_datatype(case, obs, _normalise(case, obs, failure))
 
 
+def _not_fresh(fn):
+    # the fresh-interpreter families (process wide state, configuration objects) are covered by NO known finding
+    return lambda c, o, f: 'fresh' not in c and fn(c, o, f)
+
+
 FINDING_CLASSIFIERS = {
     'inplace_merge_of_shared_accessible':
-        lambda c, o, f: f_either(c, o, f) and not f_own_dt(c, o, f) and not f_any_reset(c, o, f),
-    'value_override_mutates_inherited_own_datatype': lambda c, o, f: f_own_dt(c, o, f),
-    'method_override_of_command_reset_by_subclass': lambda c, o, f: f_either(c, o, f) and f_any_reset(c, o, f),
+        _not_fresh(lambda c, o, f: f_either(c, o, f) and not f_own_dt(c, o, f) and not f_any_reset(c, o, f)),
+    'value_override_mutates_inherited_own_datatype': _not_fresh(lambda c, o, f: f_own_dt(c, o, f)),
+    'method_override_of_command_reset_by_subclass': _not_fresh(lambda c, o, f: f_either(c, o, f) and f_any_reset(c, o, f)),
 }
 
 
@@ -1328,6 +1354,8 @@ def model_result_term(case, obs):
 
 # ------------------------------------------------------------------ evidence helpers
 def nontrivial_key(case, obs):
+    if 'fresh' in case:
+        return repr(case['fresh'])
     n_mod = sum(1 for c in class_ops(case) if c['module'])
     if n_mod < 2 or len(case['ops']) < 3:
         return None
@@ -1336,6 +1364,8 @@ def nontrivial_key(case, obs):
 
 def outcome_labels(case, obs):
     labs = set()
+    if 'fresh' in case:
+        labs.add('fresh-interpreter-' + case['fresh']['kind'])
     for op, info in zip(case['ops'], obs['ops']):
         if op[0] == 'class':
             c = op[1]
@@ -1356,6 +1386,8 @@ def outcome_labels(case, obs):
 
 
 def sample_repr(case, obs):
+    if 'fresh' in case:
+        return {'fresh': case['fresh']}
     return {'ops': case['ops'], 'results': [i['exc'] for i in obs['ops']],
             'changed_entities_per_op': [[e for e, _ in d] for d in obs['deltas']]}
 
@@ -1782,6 +1814,431 @@ def prop_cases():
     return out
 
 
+# ------------------------------------------------------------------ fresh-interpreter families (harness/c09_fresh.py)
+# Two kinds of state the worker processes cannot show: (arr) process wide class level state of the datatype classes
+# (a later class with literally the same body must be described like the earlier one; every class / instance must be
+# described as in an interpreter in which only its own chain exists), (cfg) the configuration objects themselves
+# (creating a module must not change the configuration it was created from: a module created again from the same
+# configuration - Server.restart() - or a second module using the same Param object gets the same values).
+# case = {'ops': [], 'fresh': prog}; the Coq case is the empty program (nothing of this is in the Gallina model, the
+# decision is made by the direct oracle and the two source obligations arrayof_getproperties_builds_new_dict and
+# add_accessible_only_reads_cfg).
+VERIF_DIR = os.path.dirname(os.path.dirname(os.path.dirname(os.path.abspath(__file__))))
+
+
+def _fresh_exec(progs):
+    import subprocess
+    import sys
+    import frappy
+    repo = os.path.dirname(os.path.dirname(os.path.abspath(frappy.__file__)))
+    env = dict(os.environ, PYTHONPATH=f'{VERIF_DIR}{os.pathsep}{repo}', PYTHONHASHSEED='0', PYTHONDONTWRITEBYTECODE='1')
+    p = subprocess.run([sys.executable, '-m', 'harness.c09_fresh'], input=json.dumps({'runs': progs}), env=env,
+                       stdout=subprocess.PIPE, stderr=subprocess.PIPE, text=True, timeout=300, cwd=VERIF_DIR)
+    if p.returncode != 0:
+        raise RuntimeError('c09_fresh failed: ' + p.stderr[-500:])
+    return json.loads(p.stdout)
+
+
+def _arr_chain(steps, ci):
+    """indices (among the class steps) of the chain of class ci, base first"""
+    cl = [s[1] for s in steps if s[0] == 'class']
+    chain = []
+    while ci is not None:
+        chain.append(ci)
+        ci = cl[ci].get('base')
+    return chain[::-1]
+
+
+def _arr_iso_prog(steps, ci, inst=None):
+    cl = [s[1] for s in steps if s[0] == 'class']
+    chain = _arr_chain(steps, ci)
+    cmap = {c: k for k, c in enumerate(chain)}
+    out = [['class', dict(cl[c], base=None if cl[c].get('base') is None else cmap[cl[c]['base']])] for c in chain]
+    if inst is not None:
+        out.append(['inst', cmap[ci], inst])
+    return {'kind': 'arr', 'steps': out}
+
+
+def _cfg_iso_prog(prog, k):
+    """only module k, created once, from its own copy of the configuration"""
+    name, ci, params, props = prog['mods'][k]
+    pool, pmap = [], {}
+    for pn, pi in params.items():
+        pmap[pn] = len(pool)
+        pool.append(json.loads(json.dumps(prog['pool'][pi])))
+    return {'kind': 'cfg', 'classes': prog['classes'], 'pool': pool, 'mods': [[name, ci, pmap, dict(props)]],
+            'rounds': 1, 'direct': prog.get('direct', False)}
+
+
+def fresh_run_case(case):
+    prog = case['fresh']
+    progs = [prog]
+    ents = []
+    if prog['kind'] == 'arr':
+        nc = ni = 0
+        for s in prog['steps']:
+            if s[0] == 'class':
+                ents.append(f'c{nc}')
+                progs.append(_arr_iso_prog(prog['steps'], nc))
+                nc += 1
+            else:
+                ents.append(f'i{ni}')
+                progs.append(_arr_iso_prog(prog['steps'], s[1], s[2]))
+                ni += 1
+    else:
+        for k, m in enumerate(prog['mods']):
+            ents.append(m[0])
+            progs.append(_cfg_iso_prog(prog, k))
+    res = _fresh_exec(progs)
+    iso = {}
+    blank = {'ops': [], 'deltas': [], 'own_mut': [], 'ids': [], 'xids': [], 'pids': [], 'inst_shared': [], 'iso_diff': {}}
+    if 'error' in res[0]:
+        # the program raised outside the recorded steps (frappy code called by the driver while describing / setting up)
+        return dict(blank, fresh=res[0], fresh_iso={})
+    for ent, r in zip(ents, res[1:]):
+        if 'error' in r:
+            iso[ent] = {'error': r['error']}
+        elif prog['kind'] == 'arr':
+            last = r['snaps'][-1]
+            key = f'i0' if ent[0] == 'i' else f'c{len([k for k in last if k[0] == "c"]) - 1}'
+            iso[ent] = last.get(key)
+        else:
+            iso[ent] = r['rounds'][0]['mods'].get(ent)
+    return dict(blank, fresh=res[0], fresh_iso=iso)
+
+
+def _fresh_names(a, b):
+    if a is None or b is None or 'acc' not in a or 'acc' not in b:
+        return ['*']
+    da = {x['n']: x for x in a['acc']}
+    db = {x['n']: x for x in b['acc']}
+    names = [n for n in sorted(set(da) | set(db)) if da.get(n) != db.get(n)]
+    if not names and a != b:
+        names = ['*module']
+    return names
+
+
+ELEM_KEYS = ('min', 'max', 'unit', 'fmtstr', 'maxchars')
+
+
+def _arr_expected(steps, ci, cfg=None):
+    """the properties explicitly given for the elements (and the length limits) of every array parameter of class ci:
+    Parameter(..., ArrayOf(elem, minlen, maxlen), key=...) in the class that introduces it, Parameter(key=...) in a
+    subclass, then the configuration - the last one wins (this is what frappy documents: datatype properties given to
+    the Parameter are applied to the datatype, for an array to its elements)"""
+    cl = [s[1] for s in steps if s[0] == 'class']
+    exp = {}
+    for c in _arr_chain(steps, ci):
+        for name, (kind, sp) in cl[c]['dict']:
+            if kind == 'arr':
+                exp[name] = {'minlen': sp.get('minlen', 0), 'maxlen': sp.get('maxlen', 16)}
+                e = sp['elem']
+                if e[0] in ('float', 'int'):
+                    for k, v in (('min', e[1]), ('max', e[2])):
+                        if v is not None:
+                            exp[name][k] = v
+                    if e[0] == 'float' and len(e) > 3 and e[3]:
+                        exp[name]['unit'] = e[3]
+                elif len(e) > 1 and e[1] is not None:
+                    exp[name]['maxchars'] = e[1]
+                exp[name].update({k: v for k, v in (sp.get('kw') or {}).items() if k in ELEM_KEYS + ('minlen', 'maxlen')})
+            elif kind == 'scal':
+                exp.pop(name, None)
+            elif kind == 'over' and name in exp:
+                exp[name].update({k: v for k, v in sp.items() if k in ELEM_KEYS + ('minlen', 'maxlen')})
+    for name, d in (cfg or {}).items():
+        if name in exp and isinstance(d, dict):
+            exp[name].update({k: v for k, v in d.items() if k in ELEM_KEYS + ('minlen', 'maxlen')})
+    return exp
+
+
+def _arr_effective_failures(steps, ent, ci, desc, cfg, t):
+    fails = []
+    got = {a['n']: a['export'].get('datainfo', {}) for a in desc['acc']}
+    for name, exp in _arr_expected(steps, ci, cfg).items():
+        di = got.get(name) or {}
+        mem = di.get('members') or {}
+        bad = [k for k, v in exp.items() if (di if k in ('minlen', 'maxlen') else mem).get(k) != v]
+        if bad:
+            fails.append({'class': 'given-element-property-not-effective',
+                          'what': f'{ent}: array parameter {name!r}: the properties {bad} given through Parameter(...) / a '
+                                  f'subclass override / the configuration ({ {k: exp[k] for k in bad} }) are not in the '
+                                  f'description of the elements: datainfo {di}',
+                          'entity': ent, 'names': [name], 'op': t})
+    return fails
+
+
+def fresh_oracle(case, obs):
+    prog, full, iso = case['fresh'], obs['fresh'], obs['fresh_iso']
+    fails = []
+    if 'error' in full:
+        # never on correct code: defining the classes, building the configuration and describing classes / modules
+        # (for_export, validate of probe values are guarded) do not raise
+        return [{'class': 'program-raised-unexpectedly', 'what': 'the program raised outside the recorded steps: ' + full['error'],
+                 'entity': '*', 'names': ['*'], 'op': 0}]
+    if prog['kind'] == 'arr':
+        steps = prog['steps']
+        state = {}
+        src = {}          # entity -> source (bodies along the chain, configuration)
+        cls_of = {}
+        nc = ni = 0
+        cl = [s[1] for s in steps if s[0] == 'class']
+        for t, (s, info, snap) in enumerate(zip(steps, full['infos'], full['snaps'])):
+            if s[0] == 'class':
+                new = f'c{nc}'
+                cls_of[new] = nc
+                src[new] = json.dumps([cl[c]['dict'] for c in _arr_chain(steps, nc)], sort_keys=True)
+                nc += 1
+            else:
+                new = f'i{ni}'
+                cls_of[new] = s[1]
+                src[new] = json.dumps([src[f'c{s[1]}'], s[2]], sort_keys=True)
+                ni += 1
+            for ent, desc in snap.items():
+                if ent in state and ent != new and state[ent] != desc:
+                    fails.append({'class': ('class' if ent[0] == 'c' else 'instance') + '-changed-by-later-' + s[0],
+                                  'what': f'step {t} ({s[0]} {new}) changed the description of {ent}: accessibles '
+                                          f'{_fresh_names(state[ent], desc)}',
+                                  'entity': ent, 'names': _fresh_names(state[ent], desc), 'op': t})
+                state[ent] = desc
+            if new in snap:
+                fails += _arr_effective_failures(steps, new, cls_of[new], snap[new], s[2] if s[0] == 'inst' else None, t)
+        final = full['snaps'][-1] if full['snaps'] else {}
+        ents = sorted(final, key=lambda e: (e[0], int(e[1:])))
+        for a in ents:
+            for b in ents:
+                if a[0] == b[0] and int(a[1:]) < int(b[1:]) and src[a] == src[b] and final[a] != final[b]:
+                    fails.append({'class': 'same-source-defined-later-described-differently',
+                                  'what': f'{b} was made from literally the same class bodies'
+                                          f'{" and configuration" if a[0] == "i" else ""} as {a}, later in the same '
+                                          f'process, but is described differently: accessibles {_fresh_names(final[a], final[b])}',
+                                  'entity': b, 'names': _fresh_names(final[a], final[b]), 'op': len(steps) - 1})
+        for ent in set(iso) | set(final):
+            if iso.get(ent) != final.get(ent):
+                fails.append({'class': ('class' if ent[0] == 'c' else 'instance') + '-depends-on-process-history',
+                              'what': f'the description of {ent} differs from the one obtained in a fresh interpreter in '
+                                      f'which only its own class chain (and its own configuration) exists: accessibles '
+                                      f'{_fresh_names(iso.get(ent), final.get(ent))}',
+                              'entity': ent, 'names': _fresh_names(iso.get(ent), final.get(ent)), 'op': len(steps) - 1})
+        return fails
+    # ---- cfg
+    cfgs, rounds = full['cfgs'], full['rounds']
+    for k in range(1, len(cfgs)):
+        if cfgs[k] != cfgs[0]:
+            diff = sorted(m for m in set(cfgs[0]) | set(cfgs[k]) if cfgs[0].get(m) != cfgs[k].get(m))
+            fails.append({'class': 'configuration-changed-by-creating-modules',
+                          'what': f'creating the modules (round {k}) changed the configuration they were created from: '
+                                  f'modules {diff}: before {[cfgs[0].get(m) for m in diff]}, after {[cfgs[k].get(m) for m in diff]}',
+                          'entity': diff[0] if diff else '*', 'names': diff, 'op': k})
+            break
+    for k in range(1, len(rounds)):
+        for name in sorted(set(rounds[0]['mods']) | set(rounds[k]['mods'])):
+            a, b = rounds[0]['mods'].get(name), rounds[k]['mods'].get(name)
+            if a != b:
+                fails.append({'class': 'module-created-again-from-same-configuration-differs',
+                              'what': f'module {name} created again (round {k + 1}, as after Server.restart()) from the same '
+                                      f'configuration differs from the one created first: {_fresh_names(a, b)}',
+                              'entity': name, 'names': _fresh_names(a, b), 'op': k})
+        if rounds[k].get('errors') != rounds[0].get('errors') or rounds[k].get('exc') != rounds[0].get('exc'):
+            fails.append({'class': 'module-created-again-from-same-configuration-differs',
+                          'what': f'round {k + 1}: errors {rounds[k].get("errors")} / {rounds[k].get("exc")}, first round: '
+                                  f'{rounds[0].get("errors")} / {rounds[0].get("exc")}',
+                          'entity': '*', 'names': ['*'], 'op': k})
+    for k, rnd in enumerate(rounds):
+        mods = prog['mods']
+        for i, (n1, c1, p1, q1) in enumerate(mods):
+            for n2, c2, p2, q2 in mods[i + 1:]:
+                same = c1 == c2 and q1 == q2 and sorted(p1) == sorted(p2) and \
+                    all(prog['pool'][p1[x]] == prog['pool'][p2[x]] for x in p1)
+                a, b = rnd['mods'].get(n1), rnd['mods'].get(n2)
+                if same and a != b:
+                    fails.append({'class': 'modules-with-equal-configuration-differ',
+                                  'what': f'round {k + 1}: {n1} and {n2} have the same class and the same configuration '
+                                          f'(sharing Param objects: {sorted(x for x in p1 if p1[x] == p2[x])}) but differ: '
+                                          f'{_fresh_names(a, b)}',
+                                  'entity': n2, 'names': _fresh_names(a, b), 'op': k})
+        for name, ci, params, props in mods:
+            got = rnd['mods'].get(name)
+            if got != iso.get(name):
+                fails.append({'class': 'module-depends-on-earlier-instantiations',
+                              'what': f'round {k + 1}: module {name} differs from the one created alone, in a fresh interpreter, '
+                                      f'from its own copy of the configuration: {_fresh_names(iso.get(name), got)}',
+                              'entity': name, 'names': _fresh_names(iso.get(name), got), 'op': k})
+            if got and 'acc' in got:
+                acc = {a['n']: a for a in got['acc']}
+                for pn, pi in params.items():
+                    for key in ('value', 'default', 'constant'):
+                        want = prog['pool'][pi].get(key)
+                        if want is not None and pn in acc and acc[pn].get(key) != want:
+                            fails.append({'class': 'configured-value-not-applied',
+                                          'what': f'round {k + 1}: module {name} was created without error from a configuration '
+                                                  f'with {pn}.{key} = {want!r}, but has {pn}.{key} = {acc[pn].get(key)!r}',
+                                          'entity': name, 'names': [pn], 'op': k})
+    return fails
+
+
+def fresh_shrink(case):
+    prog = case['fresh']
+    if prog['kind'] == 'arr':
+        steps = prog['steps']
+        for i in range(len(steps) - 1, -1, -1):
+            s = steps[i]
+            if s[0] == 'class':
+                ci = sum(1 for x in steps[:i] if x[0] == 'class')
+                used = any((x[0] == 'class' and x[1].get('base') == ci) or (x[0] == 'inst' and x[1] == ci) for x in steps[i + 1:])
+                if used:
+                    continue
+                rest = []
+                for x in steps[i + 1:]:
+                    if x[0] == 'class' and x[1].get('base') is not None and x[1]['base'] > ci:
+                        x = ['class', dict(x[1], base=x[1]['base'] - 1)]
+                    elif x[0] == 'inst' and x[1] > ci:
+                        x = ['inst', x[1] - 1, x[2]]
+                    rest.append(x)
+                yield {'ops': [], 'fresh': dict(prog, steps=steps[:i] + rest)}
+            else:
+                yield {'ops': [], 'fresh': dict(prog, steps=steps[:i] + steps[i + 1:])}
+                for pn in s[2]:
+                    yield {'ops': [], 'fresh': dict(prog, steps=steps[:i] + [['inst', s[1], {k: v for k, v in s[2].items() if k != pn}]]
+                                                    + steps[i + 1:])}
+        return
+    if prog.get('rounds', 1) > 1:
+        yield {'ops': [], 'fresh': dict(prog, rounds=prog['rounds'] - 1)}
+    mods = prog['mods']
+    for i in range(len(mods) - 1, -1, -1):
+        if len(mods) > 1:
+            yield {'ops': [], 'fresh': dict(prog, mods=mods[:i] + mods[i + 1:])}
+        name, ci, params, props = mods[i]
+        for pn in params:
+            yield {'ops': [], 'fresh': dict(prog, mods=mods[:i] + [[name, ci, {k: v for k, v in params.items() if k != pn}, props]]
+                                            + mods[i + 1:])}
+        if props:
+            yield {'ops': [], 'fresh': dict(prog, mods=mods[:i] + [[name, ci, params, {}]] + mods[i + 1:])}
+    if not prog.get('direct'):
+        yield {'ops': [], 'fresh': dict(prog, direct=True)}
+
+
+ARR_BODIES = [
+    # the class of seeded/C09-8/demo.py: element properties given through the Parameter
+    [['value', ['arr', {'elem': ['float', None, None, None], 'maxlen': 16,
+                        'kw': {'unit': 'K', 'min': 0, 'max': 300, 'fmtstr': '%.3f'}}]],
+     ['labels', ['arr', {'elem': ['str', None], 'maxlen': 16, 'kw': {'maxchars': 8}}]]],
+    # an unrelated class with an array parameter whose elements are complete already
+    [['value', ['scal', {'dt': ['float', None, None, None]}]],
+     ['history', ['arr', {'elem': ['float', None, None, 'V'], 'maxlen': 100}]]],
+    [['value', ['arr', {'elem': ['float', -10, 10, 'mm'], 'maxlen': 4, 'kw': {'max': 5}}]]],
+    [['value', ['scal', {'dt': ['float', 0, 100, 'K']}]],
+     ['counts', ['arr', {'elem': ['int', 0, 1000], 'maxlen': 8, 'kw': {'max': 100}}]]],
+    [['value', ['scal', {'dt': ['float', None, None, None]}]],
+     ['curve', ['arr', {'elem': ['float', None, None, None], 'minlen': 1, 'maxlen': 8, 'kw': {'unit': 'V', 'min': -10}}]]],
+    [['value', ['arr', {'elem': ['float', None, None, None], 'maxlen': 16}]]],
+]
+ARR_OVERS = {'value': [{'max': 100}, {'unit': 'mK'}, {'min': 1, 'max': 4}], 'labels': [{'maxchars': 4}],
+             'history': [{'max': 7}, {'unit': 'mV'}], 'counts': [{'max': 50}, {'min': 5}], 'curve': [{'max': 3}, {'maxlen': 4}]}
+ARR_CFGS = {'value': [{'max': 250, 'maxlen': 8}, {'max': 3}, {'unit': 'C'}, {'min': 1}], 'labels': [{'maxchars': 6}],
+            'history': [{'max': 5}, {'min': -1, 'max': 1}], 'counts': [{'max': 20}], 'curve': [{'max': 5, 'maxlen': 2}, {'unit': 'A'}]}
+
+
+def _arr_names(body):
+    return [n for n, (k, _) in body if k == 'arr']
+
+
+def arr_fixed_cases():
+    out = []
+    b0, b1 = ARR_BODIES[0], ARR_BODIES[1]
+    cfg = {'value': {'max': 250, 'maxlen': 8}}
+    # seeded/C09-8/demo.py: the same body twice, an unrelated class with an array in between, instances, a subclass
+    out.append([['class', {'base': None, 'dict': b0}], ['inst', 0, cfg], ['class', {'base': None, 'dict': b1}],
+                ['class', {'base': None, 'dict': b0}], ['inst', 2, cfg], ['inst', 0, cfg],
+                ['class', {'base': 0, 'dict': [['value', ['over', {'max': 100}]]]}]])
+    # the smallest ones: the same body twice; one class and a configured instance; one class and an overriding subclass
+    for b in ARR_BODIES:
+        out.append([['class', {'base': None, 'dict': b}], ['class', {'base': None, 'dict': b}]])
+        an = _arr_names(b)[0]
+        out.append([['class', {'base': None, 'dict': b}], ['inst', 0, {an: ARR_CFGS[an][0]}], ['inst', 0, {}]])
+        out.append([['class', {'base': None, 'dict': b}], ['class', {'base': 0, 'dict': [[an, ['over', ARR_OVERS[an][0]]]]}],
+                    ['class', {'base': None, 'dict': b}], ['class', {'base': 2, 'dict': [[an, ['over', ARR_OVERS[an][0]]]]}]])
+    return [{'ops': [], 'fresh': {'kind': 'arr', 'steps': s}} for s in out]
+
+
+def rand_arr_case(rng):
+    steps, bodies = [], []          # bodies[i] = array parameter names of class i
+    pool = rng.sample(ARR_BODIES, rng.choice([1, 2, 2, 3]))
+    for _ in range(rng.randint(3, 7)):
+        r = rng.random()
+        if not bodies or r < 0.4:
+            b = rng.choice(pool)
+            steps.append(['class', {'base': None, 'dict': b}])
+            bodies.append(_arr_names(b))
+        elif r < 0.6:
+            ci = rng.randrange(len(bodies))
+            an = rng.choice(bodies[ci])
+            steps.append(['class', {'base': ci, 'dict': [[an, ['over', rng.choice(ARR_OVERS[an])]]]}])
+            bodies.append(bodies[ci])
+        else:
+            ci = rng.randrange(len(bodies))
+            cfg = {}
+            if rng.random() < 0.75:
+                an = rng.choice(bodies[ci])
+                cfg[an] = rng.choice(ARR_CFGS[an])
+            steps.append(['inst', ci, cfg])
+    return {'ops': [], 'fresh': {'kind': 'arr', 'steps': steps}}
+
+
+CFG_CLASS = {'base': None, 'dict': [
+    ['value', ['scal', {'dt': ['float', None, None, 'mm']}]],
+    ['target', ['scal', {'dt': ['float', 0, 100, 'mm'], 'readonly': False, 'wr': True}]],
+    ['speed', ['scal', {'dt': ['float', 0, 50, 'mm/s'], 'readonly': False, 'default': 1, 'wr': True}]],
+    ['axis', ['scal', {'dt': ['int', 0, 9]}]],
+    ['curve', ['arr', {'elem': ['float', None, None, None], 'maxlen': 8, 'kw': {'unit': 'V'}, 'readonly': False, 'wr': True}]]]}
+CFG_SUB = {'base': 0, 'dict': [['speed', ['over', {'max': 30}]]]}
+CFG_PARAMS = {
+    'target': [{'default': 20, 'max': 80}, {'value': 30}, {'max': 50}, {'value': 10, 'min': 5, 'max': 60}],
+    'speed': [{'value': 5, 'max': 10}, {'value': 7, 'max': 20}, {'default': 2}, {'value': 3, 'description': 'configured speed'}],
+    'axis': [{'constant': 3}, {'constant': 1}, {'value': 2}, {'default': 4}],
+    'curve': [{'max': 250, 'maxlen': 4}, {'unit': 'A'}, {'value': [1, 2], 'max': 50}],
+}
+
+
+def cfg_fixed_cases():
+    out = []
+    # seeded/C09-7/demo.py scenario 1: restart
+    out.append({'kind': 'cfg', 'classes': [CFG_CLASS], 'pool': [{'default': 20, 'max': 80}, {'value': 5, 'max': 10}, {'constant': 3}],
+                'mods': [['mot', 0, {'target': 0, 'speed': 1, 'axis': 2}, {}]], 'rounds': 2})
+    # scenario 2: the same Param object used by two modules
+    out.append({'kind': 'cfg', 'classes': [CFG_CLASS], 'pool': [{'value': 7, 'max': 20}, {'constant': 1}, {'constant': 1}],
+                'mods': [['x', 0, {'speed': 0, 'axis': 1}, {}], ['y', 0, {'speed': 0, 'axis': 2}, {}]], 'rounds': 1})
+    for direct in (False, True):
+        for pn, lst in CFG_PARAMS.items():
+            out.append({'kind': 'cfg', 'classes': [CFG_CLASS, CFG_SUB], 'pool': [lst[0], lst[-1]],
+                        'mods': [['a', 0, {pn: 0}, {}], ['b', 1, {pn: 0}, {'visibility': 2}], ['c', 0, {pn: 1}, {}]],
+                        'rounds': 2, 'direct': direct})
+    return [{'ops': [], 'fresh': p} for p in out]
+
+
+def rand_cfg_case(rng):
+    pool, mods = [], []
+    for k in range(rng.randint(1, 3)):
+        params = {}
+        for pn in rng.sample(sorted(CFG_PARAMS), rng.randint(1, 3)):
+            shared = [i for m in mods for x, i in m[2].items() if x == pn]
+            if shared and rng.random() < 0.5:
+                params[pn] = rng.choice(shared)          # the very same Param object as another module
+            else:
+                params[pn] = len(pool)
+                pool.append(rng.choice(CFG_PARAMS[pn]))
+        mods.append([f'm{k}', rng.choice([0, 0, 1]), params, rng.choice([{}, {}, {'visibility': 2}])])
+    return {'ops': [], 'fresh': {'kind': 'cfg', 'classes': [CFG_CLASS, CFG_SUB], 'pool': pool, 'mods': mods,
+                                 'rounds': rng.choice([1, 2, 2, 3]), 'direct': rng.random() < 0.3}}
+
+
+def fresh_cases(seed, tier):
+    rng = random.Random(seed * 7919 + 17)
+    n = {'quick': 12, 'thorough': 150, 'search': 150}[tier]
+    return (arr_fixed_cases() + cfg_fixed_cases() + [rand_arr_case(rng) for _ in range(n)]
+            + [rand_cfg_case(rng) for _ in range(n)])
+
+
 def gen_cases(seed, tier):
     rng = random.Random(seed * 1000003 + 9)
     n = {'quick': 2000, 'thorough': 14000, 'search': 14000}[tier]
@@ -1790,10 +2247,13 @@ def gen_cases(seed, tier):
     if tier == 'quick':
         rng2 = random.Random(seed + 99)
         ex = rng2.sample(ex, 200)
-    return prop_cases() + cmd_cases() + nested_cases() + cases + ex
+    return fresh_cases(seed, tier) + prop_cases() + cmd_cases() + nested_cases() + cases + ex
 
 
 def shrink(case):
+    if 'fresh' in case:
+        yield from fresh_shrink(case)
+        return
     ops = case['ops']
     for i in range(len(ops) - 1, -1, -1):
         op = ops[i]
